@@ -13,6 +13,10 @@ import (
 func (fr *Frame) special(site ssa.Instruction, f *ssa.Function, args []Value, st *State, rt types.Type) (Value, bool) {
 	vc := fr.vc
 	name := vc.prog.shortName(f)
+	if f.Name() == "Execute" && f.Pkg != nil && strings.HasSuffix(f.Pkg.Pkg.Path(), "text/template") {
+		// text/template does no contextual escaping: a page built with it is outside every contract on Execute (C17)
+		vc.oblige(st, "subset", "text/template.Execute-used-for-a-reply", []string{"C17"}, TFalse, site.Pos())
+	}
 	switch name {
 	case "fmt.Sprintf":
 		vc.assumed["A-MISC: fmt.Sprintf with %s/%v verbs over strings is concatenation; other formats are uninterpreted functions of their arguments"] = true
